@@ -8,9 +8,9 @@ BASELINE = "cd /repo && /venv/bin/python -m pytest -ra -q -p no:cacheprovider --
 # id -> (technique, level text, level note, design ref)
 CHECKS = {
     "C01": (
-        "property-based testing (Hypothesis core-grammar statement generator x 34 dialects x 2 streams) with a round-trip oracle: parse-generate fixpoint, reparse, tree equality (== and independent fingerprint) and time-format identity in base",
+        "property-based testing (Hypothesis core-grammar statement generator x 34 dialects x 2 streams) plus a bounded-exhaustive time-format stream (4 functions x 12 formats x 34 dialects, also in each dialect's own format notation) with a round-trip oracle: parse-generate fixpoint, reparse, tree equality (== and independent fingerprint) and time-format identity in base",
         "Generated-input search: every statement is round-tripped in every dialect directly and through the dialect's own surface syntax; failures are reduced to the smallest sub-tree that fails the same way and keyed by (dialect, kind, node class). "
-        "The base dialect and every dialect without catalogued buckets are strict; catalogued (dialect, kind, construct) buckets in known_findings.json were collected by two 3.5M-case campaigns and each is tied to a root cause with a witness.",
+        "The base dialect, the exhaustive time-format stream (per-expression cells) and every dialect without catalogued buckets are strict; catalogued (dialect, kind, construct) buckets in known_findings.json were collected by three 3.5M-case campaigns and each is tied to a root cause with a witness.",
         "A statement that does not parse in d is outside d's domain. Bucket granularity is the node class of the minimal failing sub-tree (or 'ctx' when the failure only reproduces in context), so a new defect in an already catalogued (dialect, kind, class) cell is masked.",
         "DESIGN.md §C01",
     ),
@@ -49,10 +49,10 @@ CHECKS = {
         "DESIGN.md §C13",
     ),
     "C05": (
-        "property-based testing / grammar-aware fuzzing (Hypothesis: valid statements, token-level mutations by the dialect's own tokenizer, keyword soups, random Unicode, scaled repetition and nesting) with an exception-family oracle and a deterministic work counter (sys.setprofile call counting) as termination/complexity oracle",
-        "Every generated input is parsed at a drawn error level in a drawn dialect and every returned tree is generated into two dialects; only SqlglotError subclasses may escape and the number of Python calls made inside sqlglot must stay below 40*n^2+400000 for n input characters, "
-        "which decides non-termination without a clock (two infinite loops in the parser were found this way and repaired). Inputs that a RAISE-level parse accepts are strict; leaks on invalid input are keyed by call site against a catalogue with a >=3-inputs floor.",
-        "RecursionError is an environment bound. Generation from trees of invalid input (IGNORE/WARN) is one listed known finding (open-ended call sites); ten parser call sites and two generator call sites are listed individually.",
+        "property-based testing / grammar-aware fuzzing (Hypothesis: valid statements generated for all 34 dialects, token-level mutations by the dialect's own tokenizer, keyword soups, random Unicode, scaled repetition and nesting, mutated statements of the repository's fixture corpus) plus an exhaustive sweep of the 7146 fixture statements into all 34 dialects, with an exception-family oracle and a deterministic work counter (sys.setprofile call counting) as termination/complexity oracle",
+        "Every generated input is parsed at a drawn error level in a drawn dialect and every returned tree is generated (unmutated statements: into every dialect); only SqlglotError subclasses may escape and the number of Python calls made inside sqlglot (dialect loading, mutation tokenisation, parse, generation) must stay below min(40*n^2, 5000*n)+400000 for n input characters, "
+        "which decides non-termination without a clock (three infinite loops in the parser were found this way and repaired). Unmutated grammar/fixture statements and the work bound are strict; leaks on mutated or garbage text are keyed by call site against a catalogue with a >=3-inputs floor.",
+        "RecursionError is an environment bound. Generation from trees of invalid input (IGNORE/WARN) and from lenient-accepted incomplete trees are listed known findings (open-ended call sites, prefix match); eleven parser call sites and six generator call sites are listed individually.",
         "DESIGN.md §C05",
     ),
     "C06": (
